@@ -730,6 +730,13 @@ func genForge(r *rand.Rand, id string, size int, total int) []string {
 			g.add("restart %d", m)
 		}
 		g.obsAll(members)
+	} else if !watched && g.pick(2) == 0 {
+		// … nor through a snapshot: the loader fetches the log again from the recorded heads, through
+		// every link (F47)
+		m := members[g.pick(len(members))]
+		g.add("snapsave %d", m)
+		g.add("restartsnap %d", m)
+		g.add("obs %d", m)
 	}
 	return g.lines
 }
